@@ -5,13 +5,18 @@ M  spec/Synch.tla: the isend/irecv/wait_any protocol of SynchVectorTicket is mod
 G  spec/Gen_Synch.tla: every decomposition with its expected results, replayed on real MPI ranks
    (harness/c13_synch.cpp, mpirun -np 1..4/6): Gate frequencies, sync_0, sync_1, dot, norm, global dof count,
    Global::Matrix::apply; hook H4 forces every permutation index of the neighbour processing order.
+X  lib/c13x.py: distributed matrices (spec/SynchMat.tla model checked, spec/Gen_GlobalMat.tla -> harness/c13_gmat.cpp), blocked / tuple
+   vectors, scalar reductions, *_async variants, Splitter, filters (spec/Gen_SynchB.tla) and Muxer hierarchies (spec/Gen_Muxer.tla)
+   -> harness/c13_gvec.cpp.
 """
 import json, os, shutil
 import concurrent.futures as cf
 import vlib
+import c13x
 
 LEVEL = "model_checking"
 MPIRUN = ["mpirun", "--allow-run-as-root", "--oversubscribe", "--bind-to", "none", "-np"]
+MPIRUN_G = c13x.MPIRUN      # gate-level replays: ranks yield when idle (several shards side by side)
 
 
 def gen_cfg(nr, nd):
@@ -111,14 +116,20 @@ def app_runs(chk, app):
 def run(chk):
     if shutil.which("mpirun") is None or shutil.which("mpicxx") is None:
         raise vlib.MachineryError("MPI toolchain (mpicxx/mpirun) not available")
-    binary, app = vlib.build(["c13_synch", "c13_poisson_app"], variant="mpi")
+    binary, app, gmat, gvec = vlib.build(["c13_synch", "c13_poisson_app", "c13_gmat", "c13_gvec"], variant="mpi")
+    chk.known = vlib.load_known("C13")
     thorough = chk.tier == "thorough"
+    only_ext = os.environ.get("C13_ONLY", "") == "ext"      # development aid: skip the parts that were there before the extension
     # ---- M ---------------------------------------------------------------------------------------
     mcs = [("Synch_mc3.cfg", 8)] + ([("Synch_mc4.cfg", 8)] if thorough else [("Synch_mc4s.cfg", 4)])
+    if only_ext:
+        mcs = []
     with cf.ThreadPoolExecutor(max_workers=2) as ex:
         futs = [(ex.submit(vlib.tlc, "Synch", c, workers=w, want_printed=False, timeout=3000, xmx="12g"), c) for c, w in mcs]
         # ---- G generation in parallel --------------------------------------------------------------
         plan = [(1, 3), (2, 3), (3, 3), (4, 2)] + ([(4, 3), (5, 2), (6, 2)] if thorough else [])
+        if only_ext:
+            plan = []
         gens = [(ex.submit(vlib.tlc, "Gen_Synch", gen_cfg(nr, nd), workers=1, timeout=1500), nr, nd) for nr, nd in plan]
         for f, c in futs:
             r = f.result()
@@ -145,7 +156,7 @@ def run(chk):
                 d = dict(c)
                 d["perm"] = p
                 cases.append(d)
-        res = vlib.run_cases(binary, cases, tmo=20, max_abnormal=6, shards=max(1, min(6, 12 // nr)), wrapper=MPIRUN + [str(nr)])
+        res = vlib.run_cases(binary, cases, tmo=20, max_abnormal=6, shards=max(1, min(6, 12 // nr)), wrapper=MPIRUN_G + [str(nr)])
         vlib.judge_results(chk, cases, res, sig, harness="c13_synch",
                            keyf=lambda c: json.dumps([c["nr"], c["dofs"], c["perm"]], sort_keys=True),
                            nontrivial=lambda c: c["nr"] >= 2 and any(x >= 2 for v in c["count"].values() for x in v))
@@ -153,14 +164,21 @@ def run(chk):
         if nr == 3:
             for c in cases[100:102]:
                 chk.sample({k: c[k] for k in ("nr", "dofs", "v0", "sync0", "count", "dot", "perm")})
-    app_runs(chk, app)
+    if os.environ.get("C13_ONLY", "") != "ext":
+        app_runs(chk, app)
+    # ---- extension: matrices, blocked/tuple vectors, scalar tickets, muxer/splitter, filters (lib/c13x.py) -------------
+    total += c13x.run_ext(chk, gmat, gvec)
     chk.traces = total
     chk.exhaustive = True
     chk.rule = ("model checking: all dof-to-rank overlap hypergraphs for 3 ranks x 3 dofs (thorough also 4 ranks) x all interleavings and "
                 "message arrival orders of the synchronisation protocol; replay: every decomposition of <= 3 global dofs on 1..4 (thorough 6) real "
                 "MPI ranks x forced neighbour processing orders (hook H4), comparing frequencies, sync_0, sync_1, dot, norm, global dof count and "
                 "the distributed matrix-vector product exactly (tolerance only where the number of sharers of a dof is not a power of two: 1/3, 1/5, 1/6 are not dyadic); non-trivial = "
-                ">= 2 ranks with a shared dof")
+                ">= 2 ranks with a shared dof.  Extension (lib/c13x.py): SynchMat.tla model checks the four-round SynchMatrix protocol (all arrival "
+                "orders); Gen_GlobalMat (every row/column decomposition x pattern variant; CSR, BCSR 2x2, BCSR 2x3: convert_to_1, extract_diag, lump_rows, "
+                "apply*, global sizes), Gen_SynchB (blocked/tuple vectors, scalar reductions, all *_async variants, Splitter with frame conditions, "
+                "Global::Filter/MeanFilter) and Gen_Muxer (all compositions of 2..6 ranks into sibling groups x parent choice x child patches of unequal "
+                "size) are replayed on real MPI ranks with exact integer comparison")
     chk.assumptions = ["gate-level cases are built directly from the decomposition (mirrors in ascending global dof order); the control layer (partitioning, "
                        "gate/muxer assembly, multi-layered hierarchies) is exercised through the poisson application runs only",
                        "OpenMPI in one node with oversubscription; arrival orders in the real runs are forced through hook H4, all orders only in the model"]
